@@ -210,7 +210,21 @@ def mutate(trace, prop, rnd):
     obs = [i for i, ln in enumerate(lines) if ln["a"] == "Obs" and ln["status"] == "ok"]
     lots = [p + 1 for p, x in enumerate(t["h"]) if x["cls"] == "in"]
     if prop == "C01":
-        cand = [(i, l) for i in lot_takes for l in lots if l != lines[i]["lot"] and t["h"][l - 1]["t"] <= t["h"][lines[i]["ev"] - 1]["t"]]
+        # the fraction is re-attributed to a lot that the method in force ranks strictly worse than the lot really taken (which then still has
+        # balance and is passed over): the corruption is a C01 violation whatever the ties
+        def method_of(ev):
+            from datetime import timedelta
+            from .rp2api import BASE_DATE
+            y = (BASE_DATE + timedelta(days=day_of(t["h"][ev - 1]))).year
+            ms = [m for yy, m in t["c"]["sched"] if yy <= y]
+            return ms[-1] if ms else "fifo"
+
+        def worse(m, l, c):
+            a, b = t["h"][l - 1], t["h"][c - 1]
+            return {"fifo": a["t"] > b["t"], "lifo": a["t"] < b["t"], "hifo": a["price"] < b["price"], "lofo": a["price"] > b["price"]}[m]
+
+        cand = [(i, l) for i in lot_takes for l in lots if l != lines[i]["lot"] and t["h"][l - 1]["t"] <= t["h"][lines[i]["ev"] - 1]["t"]
+                and worse(method_of(lines[i]["ev"]), l, lines[i]["lot"])]
         if not cand:
             return None
         i, l = rnd.choice(cand)
